@@ -9,7 +9,9 @@
     this state, built from the few things the proxy classes and the oxml helper methods
     do: require / get_or_add / remove / add a child, assign a typed attribute
     (OptionalAttribute / RequiredAttribute of oxml/xmlchemy.py, exactly: default and None
-    handling, deletion), test the assigned value, map it.  A setter returns the NEW STATE
+    handling, deletion), test the assigned value, map it, and -- for the geometry of placeholders --
+    read before the assignment what the object inherits for the readings it has no own value for and
+    assign those values after it (Keep).  A setter returns the NEW STATE
     TOGETHER WITH the outcome, because python-pptx setters may mutate before they raise.
 
     Definitions only. *)
